@@ -73,12 +73,16 @@ func (h *ircHarness) reset() {
 	h.fsm = &FSM{lastSnapshotState: make(map[uint64][]byte)}
 }
 
+// liveOnly (C03): when set, recipients that are not stored sessions are dropped from the canonical
+// output — the property speaks about what live sessions receive
+var liveOnly func(uint64) bool
+
 func canonOut(msgs []outputstream.Message) string {
 	var parts []string
 	for _, m := range msgs {
 		var rc []uint64
 		for k, v := range m.InterestingFor {
-			if v {
+			if v && (liveOnly == nil || liveOnly(k)) {
 				rc = append(rc, k)
 			}
 		}
@@ -138,6 +142,12 @@ func TestVerifIrc(t *testing.T) {
 	log.SetOutput(io.Discard)
 	h := &ircHarness{t: t, tmp: os.Getenv("VERIF_TMP")}
 	h.reset()
+	if os.Getenv("VERIF_LIVE_RCPT") == "1" {
+		liveOnly = func(id uint64) bool {
+			_, err := h.i.GetSession(robust.Id{Id: id})
+			return err == nil
+		}
+	}
 	defer h.o.Close()
 	sc := bufio.NewScanner(in)
 	sc.Buffer(make([]byte, 1<<20), 1<<28)
@@ -153,6 +163,19 @@ func TestVerifIrc(t *testing.T) {
 			fmt.Fprintln(out, "ok")
 		case "E":
 			fmt.Fprintln(out, h.entry(f))
+		case "M": // Marshal -> Unmarshal into a fresh instance, continue on the restored one
+			b, err := h.i.Marshal(0)
+			if err != nil {
+				fmt.Fprintln(out, "error "+err.Error())
+				break
+			}
+			n := ircserver.NewIRCServer(verifNetwork, time.Unix(0, 1420228218166687917))
+			if _, err := n.Unmarshal(b); err != nil {
+				fmt.Fprintln(out, "error "+err.Error())
+				break
+			}
+			h.i = n
+			fmt.Fprintln(out, "ok")
 		case "G": // G <id> <reply>: session lookup as the API does it
 			_, err := h.i.GetSession(robust.Id{Id: iu64(f[1]), Reply: iu64(f[2])})
 			switch err {
